@@ -8932,3 +8932,117 @@ func ruleScopeDecodersAgree(c *Ctx) {
 	}
 	c.Floor("decoders of WitnessScope besides ScopesFromByte", n, 1)
 }
+
+// rulePageOffsetUnits (C02): HeaderHashes keeps the hashes of the last two pages in memory; `latest` and `previous`
+// are indexed by the *position inside the page*, i.e. a height minus the height the page starts at
+// (storedHeaderCount, or storedHeaderCount minus one page). An index built from a height alone is right only
+// while the page is page 0: the start-up code for a node that was started from a trusted header resliced `latest`
+// to `currHeaderHeight - len(headers)` - an absolute height - and panicked on restart for any trusted header beyond
+// the first 2000 (finding 99). Every index or slice bound over the two fields is a constant, is relative to the
+// length of that slice, or subtracts a page base (storedHeaderCount or a local defined from it).
+func rulePageOffsetUnits(c *Ctx) {
+	pk := c.P.Pkg("pkg/core")
+	if pk == nil {
+		return
+	}
+	info := pk.TypesInfo
+	n := 0
+	for _, fd := range c.P.AllFuncDecls() {
+		if fd.Pkg != pk || fd.Decl.Body == nil || fd.Decl.Recv == nil {
+			continue
+		}
+		if !namedTypeIs(fd.Obj.Type().(*types.Signature).Recv().Type(), "pkg/core", "HeaderHashes") {
+			continue
+		}
+		f := c.P.NewFuncCFG(fd)
+		isPaged := func(e ast.Expr) (string, bool) {
+			se, ok := ast.Unparen(e).(*ast.SelectorExpr)
+			if !ok {
+				return "", false
+			}
+			if se.Sel.Name == "latest" || se.Sel.Name == "previous" {
+				if v, ok := info.ObjectOf(se.Sel).(*types.Var); ok && v.IsField() {
+					return se.Sel.Name, true
+				}
+			}
+			return "", false
+		}
+		// does e (through single-definition locals) mention the page base?
+		var mentionsBase func(e ast.Node, depth int) bool
+		mentionsBase = func(e ast.Node, depth int) bool {
+			hit := false
+			ast.Inspect(e, func(x ast.Node) bool {
+				switch y := x.(type) {
+				case *ast.SelectorExpr:
+					if y.Sel.Name == "storedHeaderCount" {
+						hit = true
+					}
+				case *ast.Ident:
+					if v, ok := info.ObjectOf(y).(*types.Var); ok && !v.IsField() && !f.params[v] && depth < 3 {
+						for _, d := range f.defs[v] {
+							for _, r := range d.rhs {
+								if mentionsBase(r, depth+1) {
+									hit = true
+								}
+							}
+						}
+					}
+				}
+				return !hit
+			})
+			return hit
+		}
+		check := func(field string, sl ast.Expr, idx ast.Expr, pos token.Pos) {
+			if idx == nil {
+				return
+			}
+			n++
+			key := fmt.Sprintf("%s.%s@%s", shortSym(FuncKey(fd.Obj)), field, types.ExprString(idx))
+			if tv, ok := info.Types[idx]; ok && tv.Value != nil {
+				c.OK(key, c.P.Pos(pos), "constant position")
+				return
+			}
+			// relative to the length of the same slice
+			lenOfSame, otherVars := false, false
+			ast.Inspect(idx, func(x ast.Node) bool {
+				if call, ok := x.(*ast.CallExpr); ok {
+					if id, ok := call.Fun.(*ast.Ident); ok && id.Name == "len" && len(call.Args) == 1 {
+						if fn, ok := isPaged(call.Args[0]); ok && fn == field {
+							lenOfSame = true
+							return false
+						}
+					}
+				}
+				if id, ok := x.(*ast.Ident); ok {
+					if v, ok := info.ObjectOf(id).(*types.Var); ok && !v.IsField() {
+						otherVars = true
+					}
+				}
+				return true
+			})
+			switch {
+			case mentionsBase(idx, 0):
+				c.OK(key, c.P.Pos(pos), "a height minus the height the page starts at")
+			case lenOfSame && !otherVars:
+				c.OK(key, c.P.Pos(pos), "relative to the slice's own length")
+			default:
+				c.Fail(key, c.P.Pos(pos), fmt.Sprintf("%s positions HeaderHashes.%s with `%s`, which is built from heights and never subtracts the height the page starts at (storedHeaderCount): the two in-memory pages are indexed by position inside the page, so this is right for page 0 only - for a node whose headers start at a trusted header beyond the first page the bound exceeds the page and start-up panics, or the hashes land at the wrong positions", FuncKey(fd.Obj), field, types.ExprString(idx)))
+			}
+		}
+		ast.Inspect(fd.Decl.Body, func(x ast.Node) bool {
+			switch y := x.(type) {
+			case *ast.IndexExpr:
+				if fn, ok := isPaged(y.X); ok {
+					check(fn, y.X, y.Index, y.Pos())
+				}
+			case *ast.SliceExpr:
+				if fn, ok := isPaged(y.X); ok {
+					check(fn, y.X, y.Low, y.Pos())
+					check(fn, y.X, y.High, y.Pos())
+				}
+			}
+			return true
+		})
+	}
+	c.Floor("positions taken in the in-memory header hash pages", n, 6)
+}
